@@ -1,27 +1,103 @@
 ------------------------------- MODULE Robust -------------------------------
-(* C13 -- see RobustCut.tla for the cut algebra (a); this module is the service model (b). *)
+(***************************************************************************)
+(* C13 -- see RobustCut.tla for the cut algebra (a); this module is the    *)
+(* service model (b): the listener, one request handler per request, the   *)
+(* shared-state actor the handlers talk to by message + one-shot reply,    *)
+(* the bounded telemetry event queue every handler and task writes to, and *)
+(* the background tasks.  One action per step of the code:                 *)
+(*                                                                         *)
+(*   Input(cl)     accept + spawn handler; the handler SENDS its first     *)
+(*                 action to the status actor (increase_connection_count)  *)
+(*                 and awaits the one-shot reply                           *)
+(*   Abandon(r)    the client closes its connection: hyper drops the       *)
+(*                 handler future -- at ANY await point, in particular     *)
+(*                 while its action still sits in the actor's mailbox      *)
+(*   ActorReply(r) the actor processes the action and sends the reply; the *)
+(*                 requester may be gone (send fails): the code logs a     *)
+(*                 warning and goes on.  A design that treats the failed   *)
+(*                 send as impossible (StrictReply) kills the actor task.  *)
+(*   LogEvent(r)   write_event: push into the bounded queue; when full the *)
+(*                 event is dropped.  A design that makes room by popping  *)
+(*                 the oldest and pushing again (EvictOldest) has two      *)
+(*                 steps, between which another writer can take the slot;  *)
+(*                 treating the second failure as unreachable kills the    *)
+(*                 writer (a handler: its request is never answered).      *)
+(*   Answer(r)     the response is written                                 *)
+(*   Drain         the event logger task empties the queue (once a minute) *)
+(*   TaskTick(t)   a background task makes a step (publishes status):     *)
+(*                 possible only while it is alive                         *)
+(*                                                                         *)
+(* The constants StrictReply and EvictOldest are FALSE for the code as it  *)
+(* is (mc/Robust.cfg); mc/Robust_strict.cfg and mc/Robust_evict.cfg set    *)
+(* one each and TLC exhibits the dead actor / the unanswered request, i.e. *)
+(* the two designs are told apart by the invariants below.                 *)
+(***************************************************************************)
 EXTENDS RobustCut
 
-CONSTANTS MaxSeq      \* length of input-class sequences
+CONSTANTS MaxSeq,      \* number of requests
+          QCap,        \* capacity of the event queue (1000 in the code)
+          StrictReply, \* design switch, see above
+          EvictOldest, \* design switch, see above
+          Classes      \* input classes explored (handling is uniform in the class: any subset of AllClasses will do)
 
-Classes == {"obsTextHeader", "repeatedHeaders", "longUrl", "utf16OddReply", "longNonAsciiErrorReply", "wrongContentType",
-            "multibyteCmdline", "multibyteUserName", "plain"}
+AllClasses == {"obsTextHeader", "repeatedHeaders", "longUrl", "utf16OddReply", "longNonAsciiErrorReply", "wrongContentType",
+            "multibyteCmdline", "multibyteUserName", "clientAbandons", "requesterCancelled", "eventQueueSaturated",
+            "keyKeeperNotified", "plain"}
 
-VARIABLES listener, tasks, answered, pending, hist
-svars == <<listener, tasks, answered, pending, hist>>
-Tasks == {"keyKeeper", "status", "eventLogger", "provision"}
+VARIABLES listener, tasks, req, evq, answered, hist
+svars == <<listener, tasks, req, evq, answered, hist>>
+Tasks == {"keyKeeper", "status", "eventLogger", "provision", "statusActor"}
+Reqs == 1..MaxSeq
+\* request phases: none -> atActor -> (abandonedAtActor -> gone) | handling -> (popped ->) logged -> done | dead
+Phases == {"none", "atActor", "abandonedAtActor", "gone", "handling", "popped", "logged", "done", "dead"}
 
-SInit == listener = "serving" /\ tasks = [t \in Tasks |-> "alive"] /\ answered = 0 /\ pending = 0 /\ hist = <<>>
-\* the design-level claim: handling any class is total
-Input(cl) == /\ Len(hist) < MaxSeq /\ listener = "serving"
+ASSUME Classes \subseteq AllClasses
+
+SInit == /\ listener = "serving" /\ tasks = [t \in Tasks |-> "alive"]
+         /\ req = [r \in Reqs |-> "none"] /\ evq \in {0, QCap} /\ answered = 0 /\ hist = <<>>
+
+Input(cl) == /\ listener = "serving" /\ Len(hist) < MaxSeq
+             /\ LET r == Len(hist) + 1 IN req' = [req EXCEPT ![r] = "atActor"]
              /\ hist' = Append(hist, cl)
-             /\ pending' = pending + 1 /\ UNCHANGED <<listener, tasks, answered>>
-Answer == /\ pending > 0 /\ pending' = pending - 1 /\ answered' = answered + 1
-          /\ UNCHANGED <<listener, tasks, hist>>
-SNext == (\E cl \in Classes : Input(cl)) \/ Answer
-SSpec == SInit /\ [][SNext]_svars /\ WF_svars(Answer)
+             /\ UNCHANGED <<listener, tasks, evq, answered>>
 
+Abandon(r) == /\ req[r] \in {"atActor", "handling", "logged"}
+              /\ req' = [req EXCEPT ![r] = IF req[r] = "atActor" THEN "abandonedAtActor" ELSE "gone"]
+              /\ UNCHANGED <<listener, tasks, evq, answered, hist>>
+
+ActorReply(r) ==
+  /\ tasks["statusActor"] = "alive"
+  /\ \/ /\ req[r] = "atActor" /\ req' = [req EXCEPT ![r] = "handling"] /\ UNCHANGED tasks
+     \/ /\ req[r] = "abandonedAtActor" /\ req' = [req EXCEPT ![r] = "gone"]
+        /\ tasks' = IF StrictReply THEN [tasks EXCEPT !["statusActor"] = "dead"] ELSE tasks
+  /\ UNCHANGED <<listener, evq, answered, hist>>
+
+LogEvent(r) ==
+  /\ \/ /\ req[r] = "handling"
+        /\ IF evq < QCap THEN evq' = evq + 1 /\ req' = [req EXCEPT ![r] = "logged"]
+           ELSE IF EvictOldest THEN evq' = evq - 1 /\ req' = [req EXCEPT ![r] = "popped"]     \* pop the oldest ...
+           ELSE evq' = evq /\ req' = [req EXCEPT ![r] = "logged"]                            \* dropped, logged locally
+     \/ /\ req[r] = "popped"                                                                 \* ... and push again
+        /\ IF evq < QCap THEN evq' = evq + 1 /\ req' = [req EXCEPT ![r] = "logged"]
+           ELSE evq' = evq /\ req' = [req EXCEPT ![r] = "dead"]                              \* "unreachable": the handler dies
+  /\ UNCHANGED <<listener, tasks, answered, hist>>
+
+Answer(r) == /\ req[r] = "logged" /\ req' = [req EXCEPT ![r] = "done"] /\ answered' = answered + 1
+             /\ UNCHANGED <<listener, tasks, evq, hist>>
+
+Drain == /\ tasks["eventLogger"] = "alive" /\ evq > 0 /\ evq' = 0
+         /\ UNCHANGED <<listener, tasks, req, answered, hist>>
+
+SNext == \/ \E cl \in Classes : Input(cl)
+         \/ \E r \in Reqs : Abandon(r) \/ ActorReply(r) \/ LogEvent(r) \/ Answer(r)
+         \/ Drain
+SSpec == SInit /\ [][SNext]_svars
+               /\ \A r \in Reqs : WF_svars(ActorReply(r)) /\ WF_svars(LogEvent(r)) /\ WF_svars(Answer(r))
+
+TypeOK == req \in [Reqs -> Phases] /\ evq \in 0..QCap
 Serving == listener = "serving"
 TasksAlive == \A t \in Tasks : tasks[t] = "alive"
-EveryRequestAnswered == (pending > 0) ~> (pending = 0)
+NoHandlerDies == \A r \in Reqs : req[r] # "dead"
+\* every request whose client stays is answered (an abandoned one needs no answer)
+EveryRequestAnswered == \A r \in Reqs : (req[r] \in {"atActor", "handling", "popped", "logged"}) ~> (req[r] \in {"done", "gone", "abandonedAtActor"})
 =============================================================================
